@@ -321,8 +321,21 @@ def check(run, rule):
         if not p or not s:
             bad(ty + "::new", None, "function not found")
             continue
-        calls = [Program.callee_name(t) for _, t in prog.calls(p)]
-        ok = s in calls
+        # directly or through other constructors of the same type (`new` -> `new_with_sweep`): on every path to the
+        # return the normalisation is called (the call's block dominates the return block of its function)
+        def normalises(q, seen=()):
+            g = prog.cfg(q)
+            rets = [i for i, blk in enumerate(prog.bodies[q]["blocks"]) if blk["term"]["k"] == "return"]
+            for bid, t in prog.calls(q):
+                n = Program.callee_name(t)
+                if not all(g.dominates(bid, r) for r in rets):
+                    continue
+                if n == s:
+                    return True
+                if n.startswith(prog.bodies[q]["path"].rsplit("::", 1)[0] + "::") and n in prog.bodies and n not in seen and len(seen) < 3 and normalises(n, seen + (q,)):
+                    return True
+            return False
+        ok = normalises(p)
         gt = [t for _, t in prog.calls(s) if re.search(r"PartialOrd>::gt$|PartialOrd::gt$", Program.callee_name(t))]
         ex = Expr(prog, s)
         hasf = lambda e, f: mentions(e, lambda z: z[0] in ("param", "field") and f in z[2])
